@@ -302,7 +302,9 @@ func (s *SpokFile) run(stream iostream.IOStream, runner shell.Runner, force bool
 					// so the cache describes what this task last ran against
 					currentDigest, err = hash.New().Hash(toHash)
 					if err != nil {
-						return nil, err
+						// The task has run but what it ran against can't be described (e.g. a dependency
+						// is missing), so forget the old digest rather than leave it looking up to date
+						currentDigest = ""
 					}
 				}
 				if currentDigest != cachedDigest {
